@@ -18,6 +18,7 @@ import (
 	"fmt"
 	"sort"
 	"strings"
+	"sync"
 	"time"
 
 	"github.com/q191201771/lal/pkg/hls"
@@ -35,9 +36,16 @@ func (c *c10Clock) Add(d time.Duration)                  {}
 func (c *c10Clock) Set(t time.Time)                      {}
 
 type c10Fsl struct {
+	mu     sync.Mutex
 	inner  filesystemlayer.IFileSystemLayer
 	log    []string
 	closed map[string]bool
+}
+
+func (l *c10Fsl) add(s string) {
+	l.mu.Lock()
+	l.log = append(l.log, s)
+	l.mu.Unlock()
 }
 
 type c10File struct {
@@ -47,12 +55,12 @@ type c10File struct {
 }
 
 func (f *c10File) Write(b []byte) (int, error) {
-	f.l.log = append(f.l.log, "wr:"+f.name+":"+hexOf(b))
+	f.l.add("wr:"+f.name+":"+hexOf(b))
 	return f.f.Write(b)
 }
 
 func (f *c10File) Close() error {
-	f.l.log = append(f.l.log, "cl:"+f.name)
+	f.l.add("cl:"+f.name)
 	f.l.closed[f.name] = true
 	return f.f.Close()
 }
@@ -60,7 +68,7 @@ func (f *c10File) Close() error {
 func (l *c10Fsl) Type() filesystemlayer.FslType { return filesystemlayer.FslTypeMemory }
 
 func (l *c10Fsl) Create(name string) (filesystemlayer.IFile, error) {
-	l.log = append(l.log, "cr:"+name)
+	l.add("cr:"+name)
 	f, err := l.inner.Create(name)
 	if err != nil {
 		return nil, err
@@ -70,7 +78,7 @@ func (l *c10Fsl) Create(name string) (filesystemlayer.IFile, error) {
 }
 
 func (l *c10Fsl) Rename(o string, n string) error {
-	l.log = append(l.log, "rn:"+o+":"+n)
+	l.add("rn:"+o+":"+n)
 	err := l.inner.Rename(o, n)
 	if err == nil {
 		l.closed[n] = l.closed[o]
@@ -80,32 +88,32 @@ func (l *c10Fsl) Rename(o string, n string) error {
 }
 
 func (l *c10Fsl) MkdirAll(path string, perm uint32) error {
-	l.log = append(l.log, "mk:"+path)
+	l.add("mk:"+path)
 	return l.inner.MkdirAll(path, perm)
 }
 
 func (l *c10Fsl) Remove(name string) error {
-	l.log = append(l.log, "rm:"+name)
+	l.add("rm:"+name)
 	return l.inner.Remove(name)
 }
 
 func (l *c10Fsl) RemoveAll(path string) error {
-	l.log = append(l.log, "ra:"+path)
+	l.add("ra:"+path)
 	return l.inner.RemoveAll(path)
 }
 
 func (l *c10Fsl) ReadFile(name string) ([]byte, error) {
 	b, err := l.inner.ReadFile(name)
 	if err != nil {
-		l.log = append(l.log, "rd:"+name+":0")
+		l.add("rd:"+name+":0")
 	} else {
-		l.log = append(l.log, "rd:"+name+":1")
+		l.add("rd:"+name+":1")
 	}
 	return b, err
 }
 
 func (l *c10Fsl) WriteFile(name string, data []byte, perm uint32) error {
-	l.log = append(l.log, "wf:"+name+":"+hexOf(data))
+	l.add("wf:"+name+":"+hexOf(data))
 	err := l.inner.WriteFile(name, data, perm)
 	if err == nil {
 		l.closed[name] = true
@@ -171,7 +179,8 @@ func init() {
 				}
 			case "C":
 				// ServerManager.CleanupHlsIfNeeded's deferred task: spare a live stream
-				if m == nil {
+				// (scheduled only in cleanup modes 1 and 2)
+				if m == nil && (cfg.CleanupMode == hls.CleanupModeInTheEnd || cfg.CleanupMode == hls.CleanupModeAsap) {
 					_ = hls.RemoveAll(outPath)
 				}
 			default:
